@@ -493,6 +493,19 @@ def missing_from_output(b: Built, e: mn.Edge, text: str) -> T.Tuple[T.Optional[m
 
 MECH_RPATH = 'step-fails-in-every-order:build-rpath-misses-shared-lib-behind-link_whole'
 _LOADERR = re.compile(r'error while loading shared libraries: ([^\s:]+):')
+_LDWARN = re.compile(r'warning: ([^\s,]+), needed by [^\s,]+, not found')
+_ANSI = re.compile(r'\x1b\[[0-9;]*[A-Za-z]')
+
+
+def _rpath_dirs(e: mn.Edge) -> T.Set[str]:
+    """Build-dir relative directories named by the $ORIGIN rpath entries of a link edge."""
+    dirs: T.Set[str] = set()
+    here = os.path.dirname(e.outputs[0]) if e.outputs else ''
+    for m in re.finditer(r"-rpath,([^'\s]+)", e.get('LINK_ARGS')):
+        for part in m.group(1).split(':'):
+            if part.startswith('$ORIGIN'):
+                dirs.add(os.path.normpath(os.path.join(here, part[len('$ORIGIN'):].lstrip('/'))))
+    return dirs
 
 
 def classify_failure(b: Built, fe: T.Optional[mn.Edge], text: str) -> T.Tuple[str, T.Optional[mn.Edge], str]:
@@ -501,23 +514,31 @@ def classify_failure(b: Built, fe: T.Optional[mn.Edge], text: str) -> T.Tuple[st
         return 'schedule-fails:unknown', None, ''
     p, o = missing_from_output(b, fe, text)
     if p is None:
-        lm = _LOADERR.search(re.sub(r'\x1b\[[0-9;]*[A-Za-z]', '', text))
+        clean = _ANSI.sub('', text)
+        lm = _LOADERR.search(clean) or _LDWARN.search(clean)
         if lm:
-            # a built program run by this step cannot load a built shared library although the library's
-            # producer IS an ancestor: not an ordering problem - the step fails in every order.
+            # a built shared library is not found (by the loader when the step runs a built program, or by ld when
+            # it resolves the dependencies of a library it links) although the library's producer IS an ancestor:
+            # not an ordering problem - the step fails in every order.
             so = lm.group(1)
             anc = b.m.ancestors(fe)
-            prods = [(k, v) for k, v in b.m.producer.items() if os.path.basename(k).startswith(so) and v.idx in anc]
+            prods = [(k, v) for k, v in b.m.producer.items()
+                     if os.path.basename(k).startswith(so) and v.idx in anc and rule_class(v) == 'link']
             if prods:
+                lib, lp = prods[0]
+                libdir = os.path.normpath(os.path.dirname(lib) or '.')
                 behind = False
                 for e2 in b.m.edges:
-                    # the dependent ELF: links a whole archive and the shared library, and got no build rpath at all
-                    la = e2.scope.vars.get('LINK_ARGS', '')
-                    if '--whole-archive' in la and '-rpath' not in la and any(os.path.basename(k) in la for k, _ in prods):
+                    # a dependent ELF that whole-links an archive, links the shared library, and whose build rpath
+                    # does not name the library's directory
+                    if e2.is_phony or not rule_class(e2) == 'link':
+                        continue
+                    la = e2.get('LINK_ARGS')
+                    if '--whole-archive' in la and lib in la.split() and libdir not in _rpath_dirs(e2):
                         behind = True
                 if behind:
-                    return MECH_RPATH, prods[0][1], prods[0][0]
-                return 'step-fails-in-every-order:shared-lib-not-found-at-run-time', prods[0][1], prods[0][0]
+                    return MECH_RPATH, lp, lib
+                return 'step-fails-in-every-order:built-shared-lib-not-found', lp, lib
     return 'schedule-fails:' + mechanism_for(fe, p, o), p, o
 
 
@@ -904,9 +925,9 @@ def replay(chk: common.Check, path: str) -> int:
     scratch = os.path.realpath(common.scratch_dir('c05r'))
     proj.setdefault('key', 'replay')
     task = build_tasks(chk, scratch, [proj], 12, True, time.time() + 900)[0]
-    if w.get('schedule'):
+    if w.get('schedule') and w['schedule'].get('policy') in POLICIES:
         s = w['schedule']
-        task['schedules'] = [(s['policy'], s['jobs'], s['seed'])] + task['schedules']
+        task['schedules'] = [(s['policy'], s['jobs'], s.get('seed', 0))] + task['schedules']
     r = run_project(task)
     mechs = sorted({m for m, _ in r['violations']})
     print(f"replay: status={r['status']} violations={len(r['violations'])} mechanisms={mechs}")
